@@ -3,6 +3,8 @@
 #include "common.hpp"
 #include <Eigen/Dense>
 #include <thread>
+#include <stdexcept>
+#include <cmath>
 
 namespace HV
 {
@@ -15,6 +17,15 @@ namespace HV
         int pertKind, pertIdx;
         double pertDelta;
     };
+
+    // Writing style of the functors, derived from the spec so that both styles occur: 0 = every output is assigned;
+    // 1 = outputs are accumulated into (`+=`) and outputs whose value is exactly zero are not written at all.  Style 1 is
+    // legal because the optimizer hands every functor freshly zeroed output arguments on every call.
+    inline bool accumulateStyle(const CostSpec &s)
+    {
+        double q = std::fabs(s.ta) + std::fabs(s.kv) + std::fabs(s.ww) + std::fabs(s.kt);
+        return (static_cast<long long>(std::floor(q * 8.0 + 0.5)) & 1LL) != 0;
+    }
 
     inline CostSpec readSpec(H::Reader &r)
     {
@@ -38,8 +49,13 @@ namespace HV
                 lin += s->ta * (double)(i + 1) * Ts[i];
                 sq += Ts[i] * Ts[i];
             }
+            const bool acc = accumulateStyle(*s);
             for (size_t i = 0; i < Ts.size(); ++i)
-                grad(i) = s->ta * (double)(i + 1) + 2.0 * s->tb * Ts[i] + 2.0 * s->tc * sT;
+            {
+                double gi = s->ta * (double)(i + 1) + 2.0 * s->tb * Ts[i] + 2.0 * s->tc * sT;
+                if (!acc) grad(i) = gi;
+                else if (gi != 0.0) grad(i) += gi;
+            }
             if (s->pertKind == 1 && s->pertIdx < (int)Ts.size())
                 grad(s->pertIdx) += s->pertDelta;
             return lin + s->tb * sq + s->tc * (sT * sT);
@@ -58,9 +74,11 @@ namespace HV
                 selfTerm += (double)(i + 1) * q.row(i).squaredNorm();
             for (long i = 0; i + 1 < n1; ++i)
                 cross += q.row(i).dot(q.row(i + 1));
+            const bool acc = accumulateStyle(*s);
             for (long i = 0; i < n1; ++i)
             {
-                g.row(i) = (2.0 * s->ww * (double)(i + 1)) * q.row(i);
+                if (!acc) g.row(i) = (2.0 * s->ww * (double)(i + 1)) * q.row(i);
+                else if (s->ww != 0.0) g.row(i) += (2.0 * s->ww * (double)(i + 1)) * q.row(i);
                 if (i > 0) g.row(i) += s->wu * q.row(i - 1);
                 if (i + 1 < n1) g.row(i) += s->wu * q.row(i + 1);
             }
@@ -82,10 +100,13 @@ namespace HV
         using Vec = Eigen::Matrix<double, D, 1>;
         const CostSpec *s;
         std::vector<std::vector<Sample>> *rec; // per segment, or nullptr
+        mutable long calls = 0;
         double operator()(double t, double tg, int i, const Vec &p, const Vec &v, const Vec &a, const Vec &j, const Vec &sn,
                           Vec &gp, Vec &gv, Vec &ga, Vec &gj, Vec &gs, double &gt) const
         {
             constexpr int L = D - 1;
+            // pertKind 9: the user's functor aborts the evaluation by throwing at its (pertIdx+1)-th call
+            if (s->pertKind == 9 && calls++ >= s->pertIdx) throw std::runtime_error("running cost aborted the evaluation");
             const double ii = (double)(i + 1);
             if (rec)
             {
@@ -97,19 +118,32 @@ namespace HV
             }
             double val = s->kp * p.dot(p) + s->kv * v.dot(v) + s->ka * a.dot(a) + s->kj * j.dot(j) + s->ks * sn.dot(sn) +
                          s->kx * (p.dot(v) + a(0) * sn(L) + j(0) * p(L)) + s->kt * (tg * (p(0) + tg)) + s->ki * ii * (v(0) * a(L));
-            gp = (2.0 * s->kp) * p + s->kx * v;
+            if (!accumulateStyle(*s))
+            {
+                gp = (2.0 * s->kp) * p + s->kx * v;
+                gv = (2.0 * s->kv) * v + s->kx * p;
+                ga = (2.0 * s->ka) * a;
+                gj = (2.0 * s->kj) * j;
+                gs = (2.0 * s->ks) * sn;
+                gt = s->kt * (p(0) + 2.0 * tg);
+            }
+            else
+            {
+                // relies on the zeroed outputs: accumulate, and leave alone what this cost does not depend on
+                if (s->kp != 0.0 || s->kx != 0.0) gp += (2.0 * s->kp) * p + s->kx * v;
+                if (s->kv != 0.0 || s->kx != 0.0) gv += (2.0 * s->kv) * v + s->kx * p;
+                if (s->ka != 0.0) ga += (2.0 * s->ka) * a;
+                if (s->kj != 0.0) gj += (2.0 * s->kj) * j;
+                if (s->ks != 0.0) gs += (2.0 * s->ks) * sn;
+                if (s->kt != 0.0) gt += s->kt * (p(0) + 2.0 * tg);
+            }
             gp(L) += s->kx * j(0);
             gp(0) += s->kt * tg;
-            gv = (2.0 * s->kv) * v + s->kx * p;
             gv(0) += s->ki * ii * a(L);
-            ga = (2.0 * s->ka) * a;
             ga(0) += s->kx * sn(L);
             ga(L) += s->ki * ii * v(0);
-            gj = (2.0 * s->kj) * j;
             gj(0) += s->kx * p(L);
-            gs = (2.0 * s->ks) * sn;
             gs(L) += s->kx * a(0);
-            gt = s->kt * (p(0) + 2.0 * tg);
             if (s->pertKind == 3) gp(0) += s->pertDelta;
             if (s->pertKind == 4) gv(0) += s->pertDelta;
             if (s->pertKind == 5) gt += s->pertDelta;
